@@ -6,12 +6,12 @@ from hypothesis import strategies as st
 
 from ..gen import windsea as W
 from ..gen.common import fl
-from ..harness import SubCheck, require
+from ..harness import SubCheck, Violation, require
 from .c08 import DIS_PARAMS, GEN_DEFAULTS, make_terms
 
 META = {
     "level": "exploration",
-    "rule": ("every C08-style batch (1..3 points; JONSWAP/PM/swell+sea/random) on uniform direction grids with "
+    "rule": ("every C08-style batch (1..3 points; JONSWAP/PM/swell+sea/sea with an oblique high-frequency chop/random) on uniform direction grids with "
              "N in {16,24,36} that are closed under negation (start 0 or half a bin), rotated by k bins (k in 0..N-1) "
              "and/or mirrored together with the wind direction; ST4 input + WAM tail stress, ST4 and ST6 dissipation, "
              "default and perturbed parameters. Non-trivial = k != 0 or mirror, the sea is not isotropic and the wind "
@@ -19,7 +19,8 @@ META = {
     "assumptions": [
         "explicit roughness: spectral fields compared bin-for-bin after the roll/flip at 1e-10 relative to the field maximum; bulk rates 1e-10 relative",
         "implicit path: roughness 1e-5 relative (solver tolerance 1e-6 in log z0), stress magnitude 1e-4 relative, stress direction 1e-2 degree, dissipation-weighted direction and estimated wind direction 1e-6 degree (+1e-9/R), U10 within 0.03 m/s (solver step tolerance 0.01 m/s)",
-        "a quantity that is NaN before the transformation must be NaN after it and vice versa",
+        "a quantity that is NaN before the transformation must be NaN after it and vice versa; exception (known finding F25): points of the unphysical 'random' kind, whose roughness solve is round-off dependent - counted as random_spectrum_undefined_in_one_orientation",
+        "with direction_iteration=True the iteration stops once two successive directions agree within 1 degree, so the rotated estimate is compared at 1.5 degree and 0.05 m/s; this comparison is made for the generated k and, as one batch, for every rotation k in 0..N-1 of every point (mirrored when the case is), so that the first-guess and the stress direction straddle the 0/360 seam in some member",
     ],
 }
 
@@ -28,19 +29,25 @@ META = {
 def case(draw):
     dk = draw(st.sampled_from(["st4", "st4", "st6"]))
     steep = draw(st.sampled_from([(0.03, 0.09), (0.03, 0.09), None]))
-    c = draw(W.sea_case(max_points=3, kinds=("jonswap", "jonswap", "pm", "swell_sea", "random"), max_nf=20, steep=steep,
+    c = draw(W.sea_case(max_points=3, kinds=("jonswap", "jonswap", "pm", "swell_sea", "cross_chop", "random"), max_nf=20, steep=steep,
                         t0_choices=("zero", "half")))
     n = len(c["points"])
+    # wind mostly off the grid directions (aligned winds are the trivial case of this relation)
+    c["wdir"] = [draw(st.sampled_from([0.0, 90.0, 180.0, 270.0])) if draw(st.integers(0, 5)) == 0 else draw(fl(0.0, 360.0))
+                 for _ in range(n)]
     c.update({
         "dissipation": dk,
         "log_z0": [draw(fl(-12.0, -3.0)) for _ in range(n)],
-        "k": draw(st.one_of(st.integers(0, c["nd"] - 1), st.sampled_from([1, c["nd"] - 1, c["nd"] // 2]))),
+        "k": draw(st.one_of(st.integers(0, c["nd"] - 1), st.integers(1, c["nd"] - 1), st.sampled_from([1, c["nd"] - 1, c["nd"] // 2]))),
         "mirror": draw(st.booleans()),
         "gen_params": {k: draw(fl(0.5, 1.5)) for k in GEN_DEFAULTS} if draw(st.integers(0, 2)) == 0 else {},
         "dis_params": {k: draw(fl(0.5, 1.5)) for k in DIS_PARAMS[dk]} if draw(st.integers(0, 3)) == 0 else {},
         "viscous": draw(st.sampled_from([0.0, 0.0, 0.1])),
         "invert": draw(st.integers(0, 2)) == 0,
+        "direction_iteration": draw(st.booleans()),
     })
+    if c["direction_iteration"] and draw(st.booleans()):
+        c["invert"] = True
     return c
 
 
@@ -56,9 +63,18 @@ def wdiff(a, b):
     return np.abs((np.asarray(a, dtype=float) - np.asarray(b, dtype=float) + 180.0) % 360.0 - 180.0)
 
 
-def same_nan(a, b, what):
-    require((np.isnan(a) == np.isnan(b)).all(), what + "_defined_consistently", f"{a} vs {b}")
-    return ~np.isnan(a)
+def same_nan(a, b, what, exempt=None, counter=None, match=None):
+    """A quantity that is NaN before the transformation must be NaN after it. Points of the unphysical
+    'random' kind are exempt (known finding F25: for white-noise spectra of several metres the roughness
+    solver wanders for > 100 evaluations and whether it converges depends on round-off); they are counted."""
+    bad = np.isnan(a) != np.isnan(b)
+    if exempt is not None:
+        if counter is not None and (bad & exempt).any():
+            counter["random_spectrum_undefined_in_one_orientation"] = counter.get("random_spectrum_undefined_in_one_orientation", 0) + int((bad & exempt).sum())
+        bad = bad & ~exempt
+    if bad.any():
+        raise Violation(what + "_defined_consistently", f"{a} vs {b}", match=match)
+    return ~np.isnan(a) & ~np.isnan(b)
 
 
 def run(c):
@@ -82,6 +98,9 @@ def run(c):
     z0 = W.da(np.exp(c["log_z0"]), s1)
     a1, a2 = W.da(wd1, s1), W.da(wd2, s2)
     what = f"k={k} mirror={mirror} N={nd} dissipation={c['dissipation']}"
+    excluded = {}
+    exempt = np.array([p["kind"] == "random" for p in c["points"]]) & (not c.get("document_f25"))
+    f25 = {"roughness_solver_round_off_dependent_for_white_noise_spectrum": bool(c.get("document_f25"))}
 
     def fields_equal(name, X1, X2):
         ref = transform_fields(X1, k, mirror, t0_zero)
@@ -103,12 +122,12 @@ def run(c):
     # implicit path
     r1 = np.asarray(gen.roughness(u, a1, s1).values)
     r2 = np.asarray(gen.roughness(u, a2, s2).values)
-    ok = same_nan(r1, r2, "roughness")
+    ok = same_nan(r1, r2, "roughness", exempt, excluded, f25)
     require((np.abs(r1 - r2)[ok] <= 1e-5 * r1[ok]).all(), "roughness_invariant", f"{what}: {r1} vs {r2}")
     st1 = gen.stress(s1, u, a1)
     st2 = gen.stress(s2, u, a2)
     m1, m2 = np.asarray(st1["stress"].values), np.asarray(st2["stress"].values)
-    ok = same_nan(m1, m2, "stress")
+    ok = same_nan(m1, m2, "stress", exempt, excluded, f25)
     require((np.abs(m1 - m2)[ok] <= 1e-4 * m1[ok]).all(), "stress_magnitude_invariant", f"{what}: {m1} vs {m2}")
     p1, p2 = np.asarray(st1["direction"].values), np.asarray(st2["direction"].values)
     okd = ok & ~np.isnan(p1) & ~np.isnan(p2)
@@ -126,16 +145,61 @@ def run(c):
         e1 = estimate_u10_from_source_terms(s1, bal)
         e2 = estimate_u10_from_source_terms(s2, bal)
         u1, u2 = np.asarray(e1["u10"].values), np.asarray(e2["u10"].values)
-        ok = same_nan(u1, u2, "estimated_wind_speed")
+        ok = same_nan(u1, u2, "estimated_wind_speed", exempt, excluded, f25)
         require((np.abs(u1 - u2)[ok] <= 0.03).all(), "estimated_wind_speed_invariant", f"{what}: {u1} vs {u2}")
         w1, w2 = np.asarray(e1["direction"].values), np.asarray(e2["direction"].values)
         okw = active & ~np.isnan(w1) & ~np.isnan(w2)
         require((wdiff(w2, sign * w1 + k * delta)[okw] <= 1e-6).all(), "estimated_wind_direction_rotates",
                 f"{what}: {w1} -> {w2}")
         classes.append("with_wind_inversion")
+        if c.get("direction_iteration"):
+            # the same invariance with the direction iteration switched on (the direction then follows the stress)
+            from ocean_science_utilities.wavephysics.balance.wind_inversion import windspeed_and_direction_from_spectra
+            from ocean_science_utilities.wavephysics.windestimate import estimate_u10_from_spectrum
+            g1 = estimate_u10_from_spectrum(s1, "peak")["u10"]
+            g2 = estimate_u10_from_spectrum(s2, "peak")["u10"]
+            d1 = windspeed_and_direction_from_spectra(bal, g1, s1, direction_iteration=True)
+            d2 = windspeed_and_direction_from_spectra(bal, g2, s2, direction_iteration=True)
+            v1, v2 = np.asarray(d1["u10"].values), np.asarray(d2["u10"].values)
+            okv = same_nan(v1, v2, "estimated_wind_speed_with_direction_iteration", exempt, excluded, f25)
+            require((np.abs(v1 - v2)[okv] <= 0.05).all(), "estimated_wind_speed_invariant_with_direction_iteration",
+                    f"{what}: {v1} vs {v2}")
+            x1, x2 = np.asarray(d1["direction"].values), np.asarray(d2["direction"].values)
+            okx = okv & active & ~np.isnan(x1) & ~np.isnan(x2)
+            # the iteration stops when two successive directions differ by < 1 degree
+            require((wdiff(x2, sign * x1 + k * delta)[okx] <= 1.5).all(), "estimated_wind_direction_rotates_with_direction_iteration",
+                    f"{what}: {x1} -> {x2}")
+            classes.append("with_direction_iteration")
+            # every rotation k in 0..N-1 (and its mirror image) of every point, as one batch: somewhere on the way
+            # round the circle the first-guess direction and the stress direction lie on either side of the 0/360
+            # seam, where the direction update has to wrap
+            ks = np.arange(nd)
+            allE = np.concatenate([np.stack([transform_fields(E[i], int(kk), mirror, t0_zero) for kk in ks]) for i in range(n)])
+            call = dict(c, depth=[dep for dep in c["depth"][:n] for _ in ks])
+            sa = W.build(call, allE)
+            ga = estimate_u10_from_spectrum(sa, "peak")["u10"]
+            da_ = windspeed_and_direction_from_spectra(bal, ga, sa, direction_iteration=True)
+            va = np.asarray(da_["u10"].values).reshape(n, nd)
+            xa = np.asarray(da_["direction"].values).reshape(n, nd)
+            for i in range(n):
+                ref_v = np.full(nd, v1[i])
+                oka = same_nan(ref_v, va[i], "estimated_wind_speed_with_direction_iteration_every_rotation",
+                               np.full(nd, bool(exempt[i])), excluded, f25)
+                require((np.abs(va[i] - v1[i])[oka] <= 0.05).all(), "estimated_wind_speed_invariant_with_direction_iteration",
+                        lambda: f"point {i}, all rotations, mirror={mirror}: reference {v1[i]} rotated {va[i]}")
+                if active[i] and np.isfinite(x1[i]):
+                    okb = oka & ~np.isnan(xa[i])
+                    require((wdiff(xa[i], sign * x1[i] + ks * delta)[okb] <= 1.5).all(),
+                            "estimated_wind_direction_rotates_with_direction_iteration",
+                            lambda: f"point {i}, all rotations, mirror={mirror}: reference {x1[i]} rotated minus k*delta "
+                                    f"{(xa[i] - ks * delta) % 360}")
+            classes.append("every_rotation_batch")
+            first_guess_gap = wdiff(x1, q1)
+            if np.nanmax(np.where(active, first_guess_gap, 0.0)) > delta:
+                classes.append("stress_direction_more_than_a_bin_from_first_guess")
     aligned = all(abs(((w - c["t0"]) / delta) - round((w - c["t0"]) / delta)) < 1e-9 for w in wd1)
     aniso = bool((E.std(axis=-1) > 0).any())
-    return {"nontrivial": (k != 0 or mirror) and aniso and not aligned, "classes": classes}
+    return {"nontrivial": (k != 0 or mirror) and aniso and not aligned, "classes": classes, "excluded": excluded}
 
 
 SUBCHECKS = [
@@ -148,8 +212,12 @@ def fixed_cases():
     base = {"nf": 12, "nd": 36, "fkind": "geometric", "f0": 0.05, "t0": 0.0,
             "points": [{"kind": "jonswap", "hs": 4.0, "fp": 0.1, "gamma": 3.3, "theta": 33.0, "power": 2}],
             "depth": [float("inf")], "u10": [15.0], "wdir": [41.0], "dissipation": "st4", "log_z0": [-8.0],
-            "gen_params": {}, "dis_params": {}, "viscous": 0.0, "invert": False}
-    return [dict(base, k=1, mirror=False), dict(base, k=7, mirror=True), dict(base, k=0, mirror=True)]
+            "gen_params": {}, "dis_params": {}, "viscous": 0.0, "invert": False, "direction_iteration": False}
+    bim = dict(base, nf=20, fmax=1.0, points=[{"kind": "cross_chop", "hs": 2.0, "fp": 0.2, "gamma": 3.3, "theta": 53.0, "power": 10,
+                                                "hs2": 0.3, "fp2": 0.6, "theta2": 353.0}], u10=[10.0], wdir=[40.0],
+               invert=True, direction_iteration=True)
+    return [dict(base, k=1, mirror=False), dict(base, k=7, mirror=True), dict(base, k=0, mirror=True),
+            dict(bim, k=5, mirror=False), dict(bim, k=11, mirror=True)]
 
 
 SUBCHECKS[0].fixed = fixed_cases
